@@ -27,7 +27,12 @@ type flushPolicyIntervalOnly struct {
 }
 
 func (p *flushPolicyIntervalOnly) Ticker() (<-chan time.Time, func()) {
-	ticker := time.NewTicker(p.Interval)
+	interval := p.Interval
+	if interval <= 0 {
+		// (a ticker cannot have a non-positive interval: the flush loop would panic)
+		interval = defaultFlushInterval
+	}
+	ticker := time.NewTicker(interval)
 	return ticker.C, ticker.Stop
 }
 func (p *flushPolicyIntervalOnly) IsFlush(size uint32) bool { return false }
